@@ -819,6 +819,49 @@ impl InflightBlocks {
     }
 }
 
+/// verif hook: read-only copy of the in-flight table
+#[cfg(feature = "verif-hooks")]
+#[derive(Debug, Clone, Default)]
+pub struct VerifInflightDump {
+    /// peer, task_count, listed blocks
+    pub schedulers: Vec<(PeerIndex, usize, Vec<BlockNumberAndHash>)>,
+    /// block, owning peer, request time
+    pub states: Vec<(BlockNumberAndHash, PeerIndex, u64)>,
+    /// block, mark time
+    pub trace: Vec<(BlockNumberAndHash, u64)>,
+    pub restart_number: BlockNumber,
+}
+
+#[cfg(feature = "verif-hooks")]
+impl InflightBlocks {
+    /// verif hook: `protect_num` is `pub(crate)`; the in-crate tests set it the same way
+    pub fn verif_set_protect_num(&mut self, n: usize) {
+        self.protect_num = n;
+    }
+
+    /// verif hook, read-only
+    pub fn verif_dump(&self) -> VerifInflightDump {
+        VerifInflightDump {
+            schedulers: self
+                .download_schedulers
+                .iter()
+                .map(|(p, d)| (*p, d.task_count, d.hashes.iter().cloned().collect()))
+                .collect(),
+            states: self
+                .inflight_states
+                .iter()
+                .map(|(b, s)| (b.clone(), s.peer, s.timestamp))
+                .collect(),
+            trace: self
+                .trace_number
+                .iter()
+                .map(|(b, t)| (b.clone(), *t))
+                .collect(),
+            restart_number: self.restart_number,
+        }
+    }
+}
+
 impl Peers {
     pub fn sync_connected(
         &self,
